@@ -3,7 +3,7 @@ the local kernels, gauge moves and environment builders wrapped, and prints the 
 Also logs the chain implementation's local-propagator calls (Mps._evolve_tdvp_ps) for linear trees.
 
 event encoding (5 integers each):  [code, a, b, c, t]
-  0 Evolve0 (a = child id of the bond, t = step in units of tau/2)   1 Evolve1 (a = node)   2 Evolve2 (a = child)
+  0 Evolve0 (a = child id of the bond, t = step in units of tau/2)   1 Evolve1 (a = node)   2 Evolve2 (a = child, b = parent)
   3 QRUp (a = child, b = parent)      4 AbsorbUp (a = child, b = parent)
   5 QRDown (a = parent, b = ichild, c = child)   6 AbsorbDown (a = parent, b = ichild, c = child)
   7 EnvChild (a = node)               8 EnvParent (a = parent, b = ichild, c = child)
@@ -56,7 +56,7 @@ def install():
                 snode, ttns, ttno, ttne, coeff, tau = args
             if LOG["ev"] is not None:
                 LOG["coeffs"].add(complex(coeff))
-                _emit([_code, _idx(snode), 0, 0, _unit(tau)])
+                _emit([_code, _idx(snode), _idx(snode.parent) if _code == 2 else 0, 0, _unit(tau)])
                 LOG["pending"] = complex(coeff) * tau
             return _f(*args)
 
@@ -165,8 +165,12 @@ def install():
 def run_tree_case(case, rng):
     bt, order = L.build_basis(case["tree"])
     ttno = L.TTNO(bt, L.build_terms(case["terms"]))
-    np.random.seed(int(rng.integers(0, 2**31 - 1)))
-    ttns = L.TTNS.random(bt, int(case.get("qntot", 0)), int(case.get("m", 3)))
+    np_seed = int(rng.integers(0, 2**31 - 1))
+    LOG["np_seed"] = np_seed
+    np.random.seed(np_seed)
+    # purified state: the state lives on the tree with auxiliary space, the operator on the physical tree
+    bts = bt.add_auxiliary_space() if case.get("aux") else bt
+    ttns = L.random_state(bts, case.get("qntot", 0), int(case.get("m", 3)))
     L.config(ttns, case["method"], m=case.get("m", 3))
     tau = complex(case["tau"][0], case["tau"][1]) if case["tau"][1] != 0 else float(case["tau"][0])
     LOG["bad"] = []
@@ -236,7 +240,7 @@ def main():
             out["tree"].append(run_tree_case(case, rng))
         except Exception as e:  # an exception on an input the API accepts is reported, not swallowed
             import traceback
-            out["tree"].append({"error": repr(e), "tb": traceback.format_exc()[-1500:]})
+            out["tree"].append({"error": repr(e), "tb": traceback.format_exc()[-1500:], "np_seed": LOG.get("np_seed")})
             LOG["ev"] = None
     for case in payload.get("chain_cases", []):
         try:
